@@ -115,6 +115,9 @@ class Model(Object):
                 x._model = self
         if not hasattr(self, "name"):
             self.name = None
+        if getattr(self, "_solver", None) is not None and hasattr(self, "_tolerance"):
+            # not all tolerances survive the serialization of the solver
+            self.tolerance = self._tolerance
 
     def __getstate__(self) -> Dict:
         """Get state for serialization.
@@ -486,6 +489,8 @@ class Model(Object):
             # Cplex has an issue with deep copies
         except Exception:  # pragma: no cover
             new._solver = copy(self.solver)  # pragma: no cover
+        # not all tolerances survive the copy of the solver
+        new.tolerance = self._tolerance
 
         # it doesn't make sense to retain the context of a copied model so
         # assign a new empty context
